@@ -10,12 +10,14 @@ H.append({"name":"H_fields","tiers":Q,"scale":"b2","bounds":"valid 2-file patch 
   "max_steps":20000000,"max_decisions":400,"param_sets":[{"mut":m,"structure":0} for m in range(13)]})
 H.append({"name":"H_fields","tiers":Q,"scale":"c8","bounds":"the bsdiff series messages (header, two controls, EOF control) mutated with an LRU chunk of 8 bytes: the 3-byte old file ends inside a chunk",
   "max_steps":20000000,"param_sets":[{"mut":m,"structure":0} for m in (5,6,7,8)]})
-H.append({"name":"H_fields","tiers":Q,"scale":"b2","bounds":"structure mutations: end marker dropped / duplicated, series kinds swapped, bsdiff EOF control dropped, an op after a full-file op, no end marker after it (no field mutated)",
-  "max_steps":20000000,"param_sets":[{"mut":-1,"structure":s} for s in range(1,7)]})
+H.append({"name":"H_fields","tiers":Q,"scale":"b2","bounds":"structure mutations: end marker dropped / duplicated, series kinds swapped, bsdiff EOF control dropped, an op after a full-file op, no end marker after it, patch header without compression settings (no field mutated); and the header's compression algorithm / quality symbolic",
+  "max_steps":20000000,"param_sets":[{"mut":-1,"structure":s} for s in range(1,8)]+[{"mut":100,"structure":0}]})
 H.append({"name":"H_truncate","tiers":Q,"scale":"b2","bounds":"the valid patch stream truncated at every byte index","max_steps":20000000,"param_sets":[{"cut":c} for c in range(0,400,1)]})
 H.append({"name":"H_signature","tiers":Q,"scale":"b2","bounds":"signature stream for files of 5,0,3 bytes (6 hashes needed) carrying 0..8 hashes with symbolic weak hashes; grouping and block validation at every file/block index","param_sets":[{"nh":n,"cut":-1} for n in range(0,9)]})
 H.append({"name":"H_signature","tiers":Q,"scale":"b2","bounds":"other container layouts: the empty file first; empty files after 1 and 2 hashes and an empty file last; 0..8 hashes",
   "param_sets":[{"nh":n,"cut":-1,"layout":l} for l in (1,2) for n in range(0,9)]})
+H.append({"name":"H_signature","tiers":Q,"scale":"b2","bounds":"signature header without compression settings / with symbolic algorithm and quality",
+  "param_sets":[{"nh":6,"cut":-1,"hdr":1},{"nh":6,"cut":-1,"hdr":2}]})
 H.append({"name":"H_signature","tiers":Q,"scale":"b2","bounds":"signature stream truncated at every byte index","param_sets":[{"nh":6,"cut":c} for c in range(0,190)]})
 H.append({"name":"H_overlay","tiers":Q,"bounds":"overlay stream of 3 ops: type and length of one op symbolic (full range), with/without end marker; and truncated at every byte","param_sets":[{"mut":m,"end":e,"cut":-1} for m in (-1,0,1,2) for e in (0,1)]+[{"mut":-1,"end":1,"cut":c} for c in range(0,70)]})
 H.append({"name":"H_fields","tiers":T,"scale":"b2","bounds":"a mutated message combined with each structure mutation","max_seconds":1500,"max_steps":20000000,"param_sets":[{"mut":m,"structure":s} for m in range(13) for s in range(1,7)]})
